@@ -31,6 +31,32 @@ def viol08 (parent : Cell → Cell) (s : Sim) : List String :=
 def viol04 (cap : MechId → Option Rat) (s : Sim) : List String :=
   (s.vehicles.filter (fun v => !energyOk cap v)).map fun v => s!"C04/bounds| vehicle {v.id} level out of bounds"
 
+/-- C18 on one update phase of the implementation: among the vehicles queued for (station, plug)
+    in the pre-state, none that is still queueing afterwards joined strictly earlier
+    (enqueue time, then id) than one that started charging there -/
+def viol18Step (env : Env) (pre post : Sim) : List String :=
+  let queued : List (Vehicle × StationId × ChargerId × Int) := pre.vehicles.filterMap fun v =>
+    match v.act with
+    | .chargeQueueing s c t => some (v, s, c, t)
+    | _ => none
+  queued.flatMap fun (q, s, c, t) =>
+    let charging := match post.vehicle? q.id with
+      | some v' => (match v'.act with | .chargingStation s' c' => s' == s && c' == c | _ => false)
+      | none => false
+    if !charging then [] else
+      queued.flatMap fun (q', s', c', t') =>
+        let earlier := s' == s && c' == c && (t' < t || (t' == t && q'.id < q.id))
+        let stillQueued := match post.vehicle? q'.id with
+          | some v' => (match v'.act with | .chargeQueueing s2 c2 _ => s2 == s && c2 == c | _ => false)
+          | none => false
+        if earlier && stillQueued then
+          let usable := match (pre.station? s).bind (·.plug? c) with
+            | some cs => env.validCharger q' cs
+            | none => false
+          if usable then [s!"C18/overtaken| vehicle {q.id} (queued at {t}) started charging at station {s} plug {c} while vehicle {q'.id} (queued at {t'}) is left waiting"]
+          else [s!"C18/overtaken-unusable-plug| vehicle {q'.id} queues at station {s} for plug {c} which it cannot use and is overtaken by vehicle {q.id}"]
+        else []
+
 /-- all state monitors -/
 def monitorAll (env : Env) (s : Sim) : List String :=
   viol02 s ++ viol07 s ++ viol08 env.parent s ++ viol10 s ++ viol17 s
